@@ -81,6 +81,7 @@ package ch
 //@   ensures err == nil ==> code <= 14 {known-code}
 //@   ensures ctx.hasDl ==> c.conn.arms > old(c.conn.arms) && c.conn.armSec * 1000000000 + c.conn.armNsec <= ctx.dlSec * 1000000000 + ctx.dlNsec {deadline-not-after-context}
 //@   ensures c.readTimeout > 0 ==> c.conn.arms > old(c.conn.arms) {read-timeout-arms-deadline}
+//@   ensures err == nil && c.conn.arms > old(c.conn.arms) ==> c.conn.disarms > old(c.conn.disarms) [C08,C10] {deadline-cleared-before-the-packet-body-is-read}
 
 //@ contract (c *Client) decode(v) (err) props(C03,C13)
 //@   requires c != nil && v != nil
